@@ -9,7 +9,7 @@ from ..loader import iter_own_nodes, own_walk
 from ..report import RuleResult, Undecided, norm_src
 from ..sched import ALL, FIRST, Clause, Event, Path, SchedModel
 
-POOLED = ("pool", "async")
+POOLED = ("pool", "async", "foreign")
 
 
 def model(ctx: Ctx) -> SchedModel:
@@ -487,6 +487,13 @@ def sch_poolsize(ctx: Ctx) -> RuleResult:
                   "the pool size is the library default, unrelated to max_concurrency: submissions counted as in flight may queue "
                   "inside the pool, or more threads than the limit run", norm_src(m.pool_ctor))
         return r
+    reb = [n for n in iter_own_nodes(m.fn.node) if isinstance(n, (ast.Assign, ast.AugAssign, ast.AnnAssign)) and any(
+        isinstance(t, ast.Name) and t.id == m.bound_name for t in (n.targets if isinstance(n, ast.Assign) else [n.target]))]
+    r.ob(not reb, {"bound re-assigned inside the scheduler": [norm_src(x) for x in reb]})
+    for x in reb:
+        r.violate(f"{m.fn.short}: the concurrency bound '{m.bound_name}' is recomputed inside the scheduler", _where(m, x),
+                  "the scheduler must enforce the limit it is given: a lower value blocks while slots are free and nodes are ready, a "
+                  "higher one exceeds the limit", norm_src(x))
     ok = isinstance(mx, ast.Name) and mx.id == m.bound_name
     r.ob(ok, {"max_workers": norm_src(mx), "bound compared by the guards": m.bound_name})
     if not ok:
@@ -538,6 +545,13 @@ def sch_arms(ctx: Ctx) -> RuleResult:
                         else:
                             poss -= {mem}
             kind = e.data["kind"]
+            if kind == "foreign":
+                r.ob(False, {"dispatch": "foreign", "callee": e.data["info"].get("callee")})
+                r.violate(f"{m.fn.short}: node function handed to {e.data['info'].get('callee', '?')[4:]}, not to the scheduler's pool",
+                          _where(m, e.node), "the node runs on an executor that is not bounded by max_concurrency (e.g. the event loop's "
+                          "default executor): the scheduler counts it as in flight while it may be queued elsewhere, or more threads than "
+                          "the limit run", norm_src(e.node))
+                continue
             exp = {k for k, v in EXPECTED_KIND.items() if v == kind}
             ok = poss == exp
             r.ob(ok, {"dispatch": kind, "resources reaching it": sorted(poss)})
@@ -1006,6 +1020,18 @@ def sch_taskdone(ctx: Ctx) -> RuleResult:
         awaited = {id(n.value) for n in iter_own_nodes(f.node) if isinstance(n, ast.Await)}
         calls = [n for n in iter_own_nodes(f.node) if isinstance(n, ast.Call) and isinstance(n.func, ast.Attribute)
                  and n.func.attr == "run_in_executor"]
+        # the wrapper submits to the pool it is given
+        passed = all(info.get("pool_passed", False) for info in m.dispatch.values() if info.get("callee") == q)
+        pool_params = [a.arg for a in f.node.args.posonlyargs + f.node.args.args + f.node.args.kwonlyargs
+                       if "ThreadPoolExecutor" in ast.unparse(a.annotation or ast.Constant(value=""))]
+        uses_pool = any(c.args and dotted(c.args[0]) in pool_params for c in calls)
+        r.ob(passed and uses_pool, {"in": f.short, "receives the scheduler's pool": passed, "submits to it": uses_pool})
+        if not (passed and uses_pool):
+            other = [n for n in iter_own_nodes(f.node) if isinstance(n, ast.Call) and (dotted(n.func) or "").endswith("to_thread")]
+            r.violate(f"{f.short}: the node function is not submitted to the pool the scheduler passes in", f.loc(other[0] if other else None),
+                      "the node runs on another executor (e.g. asyncio's default one): it is not bounded by max_concurrency, although the "
+                      "scheduler counts it as in flight", norm_src(other[0]) if other else None)
+            continue
         for c in calls:
             ok = id(c) in awaited
             # a future bound to a name and awaited later
@@ -1020,6 +1046,19 @@ def sch_taskdone(ctx: Ctx) -> RuleResult:
                           "the coroutine (hence the task the scheduler tracks for the node) completes as soon as the work is handed to "
                           "the pool: the scheduler removes the node from the graph and releases its dependents while the node function "
                           "is still running (they read a missing result as None)", norm_src(c))
+        # a contextvars.Context may be entered by one thread at a time: it must be created per dispatch
+        runs = [n for n in iter_own_nodes(f.node) if isinstance(n, ast.Attribute) and n.attr == "run" and isinstance(n.value, ast.Name)]
+        params = [a.arg for a in f.node.args.posonlyargs + f.node.args.args + f.node.args.kwonlyargs]
+        for rn in runs:
+            cv = rn.value.id
+            made_here = any(isinstance(n, ast.Assign) and dotted(n.targets[0]) == cv and isinstance(n.value, ast.Call)
+                            and (dotted(n.value.func) or "").endswith("copy_context") for n in iter_own_nodes(f.node))
+            if cv in params or made_here:
+                r.ob(made_here, {"context object": cv, "created per dispatch": made_here})
+                if not made_here:
+                    r.violate(f"{f.short}: the contextvars.Context used to run the node is passed in, not copied per dispatch", f.loc(rn),
+                              "one Context shared by the nodes of an execution is entered by several worker threads at once: the second "
+                              "'ctx.run' raises RuntimeError and the call fails whenever two async-thread nodes overlap", norm_src(rn))
         # the function that is run on the worker is the one passed in
         p0 = f.node.args.args[0].arg if f.node.args.args else None
         uses = any(isinstance(n, ast.Name) and n.id == p0 for n in iter_own_nodes(f.node))
